@@ -228,6 +228,25 @@ pub fn run(ctx: &Ctx, rep: &mut Report) {
             x.push(u);
         }
     }
+    if ctx.replay.is_none() {
+        // single-field structs out of a macro_rules! macro whose field type holds a fragment that depends on grouping
+        // (`[u8; $len * 2]`, `&'a $t` with `$t = dyn Fn() -> u8 + 'static`), and a per-trait bound on an EARLIER entry
+        // of the list that the later entry must not inherit
+        for (entry, ex) in [("attr", ""), ("derive", "#[derive(Ex)] ")] {
+            let progs: [(&str, String, &str, &str); 3] = [
+                ("field type [u8; $len * 2] out of a macro", format!("macro_rules! mk {{ ($n:ident, $len:expr) => {{ {ex}#[derive_ex(Deref, DerefMut)] pub struct $n(pub [u8; $len * 2]); }} }}\nmk!(X, 1 + 2);"), "{ fn tgt<D: ::core::ops::Deref<Target = [u8; 6]>>(_: &D) {} let mut x = X([0; 6]); tgt(&x); (*x)[5] = 7; format!(\"{};{}\", x.0[5], ::core::ptr::eq(&*x, &x.0)) }", "7;true"),
+                ("field type &'a $t with $t = dyn Fn() -> u8 + 'static out of a macro", format!("macro_rules! mk {{ ($n:ident, $t:ty) => {{ {ex}#[derive_ex(Deref, DerefMut)] pub struct $n<'a>(pub &'a $t); }} }}\nmk!(X, dyn Fn() -> u8 + 'static);"), "{ let f = || 3u8; let x = X(&f); format!(\"{}\", (*x)()) }", "3"),
+                ("DerefMut(bound(T: Copy)) listed BEFORE Deref", format!("{ex}#[derive_ex(DerefMut(bound(T: ::core::marker::Copy)), Deref)] pub struct X<T>(pub T);"), "{ let x = X(String::from(\"s\")); let mut y = X(5u8); *y = 6; format!(\"{};{};{}\", (*x).len(), y.0, dxrt::impls!(X<String>: ::core::ops::DerefMut)) }", "1;6;false"),
+            ];
+            for (what, defs, run, expected) in progs {
+                let code = format!("use derive_ex::{{derive_ex, Ex}};\n{defs}\npub fn run() -> String {{ {run} }}\n");
+                let mut atoms = BTreeSet::new();
+                atoms.insert(format!("entry={entry}"));
+                atoms.insert(format!("fixed={what}"));
+                x.push(XCase { text: format!("{entry} {defs}"), code, expected: expected.to_string(), atoms, nontrivial: true, detail: json!({"kind": "fixed", "entry": entry, "what": what, "item": defs}), what: format!("derive_ex(Deref, DerefMut) via {entry}: {what}"), inner: 2, symptom: "deref-does-not-target-the-field".into(), must_compile: true });
+            }
+        }
+    }
     run_and_compare(rep, "c18", &x);
 }
 
